@@ -1,5 +1,61 @@
-(* C02 - statements are being added as Proofs/ExecFacts.v grows *)
-From Coq Require Import List.
-From JugV Require Import Model.Deps Model.Exec Model.ExecCase.
-Theorem C02_placeholder : True. Proof. exact I. Qed.
-Print Assumptions C02_placeholder.
+(* C02 - a task is executed at most once and never by two workers at the same time.
+   Statements only; every proof is [exact <lemma>].
+
+   Vocabulary (Model/Exec.v, Proofs/ExecFacts.v, Proofs/ExecTheorems.v): [cfg] = the tasks of a jugfile,
+   their direct dependencies and what calling each task's function on a store returns; [step]/[run] =
+   the guarded transition system of any number of workers at the store / lock / function-call
+   interface (the recorded traces of the real execution_loop are validated against it in every run
+   of the check); [reach C r0 tr s] = s is reached from the initial results r0 by the events tr - of
+   any workers, in any interleaving, joining and leaving at any time; [framed C] = calling a task
+   function reads the store at the task's dependencies only; [running s w t] = worker w is inside
+   the function of t (called, result not yet stored); [execs s t] = how often the function of t has
+   been called; [quiet e] = e is not a raise, a stop request or a crash. *)
+From Coq Require Import List Bool PArith.
+From JugV Require Import Model.MapReduce Model.Slice Model.Deps Model.Exec Model.ExecCase Model.ExecExample
+  Proofs.ExecFacts Proofs.ExecTheorems.
+Import ListNotations.
+
+(* (a) two executions of the same task never overlap *)
+Theorem C02_never_concurrently : forall (V : Type) (C : cfg V), framed C ->
+  forall r0 tr s w w' t, reach C r0 tr s -> running s w t -> running s w' t -> w = w'.
+Proof. exact (@never_concurrently). Qed.
+Print Assumptions C02_never_concurrently.
+
+(* (b) once a result is stored no worker can start the function again, whatever happens afterwards:
+   the start event is not enabled, the call counter never moves, the result is never overwritten *)
+Theorem C02_not_started_once_stored : forall (V : Type) (C : cfg V), framed C ->
+  forall r0 tr s tr' s' t, reach C r0 tr s -> results s t <> None -> run C s tr' = Some s' ->
+    (forall w, step C s (EStart w t) = None) /\ execs s' t = execs s t /\ results s' t = results s t.
+Proof. exact (@not_started_once_stored). Qed.
+Print Assumptions C02_not_started_once_stored.
+
+(* (c) absent failures, stop requests and crashes every function is called at most once in total -
+   not at all if its result was there from the start, exactly once if it ends up stored - however
+   many workers run and however often execute is repeated (a repeated execute is more workers) *)
+Theorem C02_exactly_once : forall (V : Type) (C : cfg V), framed C ->
+  forall r0 tr s, reach C r0 tr s -> forallb quiet tr = true ->
+  forall t, execs s t <= 1 /\ (r0 t <> None -> execs s t = 0) /\ (r0 t = None -> results s t <> None -> execs s t = 1).
+Proof. exact (@called_exactly_once). Qed.
+Print Assumptions C02_exactly_once.
+
+(* the lock discipline behind (a) and (b), as an invariant of every reachable state *)
+Theorem C02_lock_discipline : forall (V : Type) (C : cfg V), framed C ->
+  forall r0 tr s, reach C r0 tr s -> Inv C s.
+Proof. exact (@reach_Inv). Qed.
+Print Assumptions C02_lock_discipline.
+
+(* the theorems apply to every generated program *)
+Theorem C02_programs_qualify : forall p, framed (prog_cfg p).
+Proof. exact programs_are_framed. Qed.
+Print Assumptions C02_programs_qualify.
+
+(* non-vacuity: a three-task program run by two workers racing for the first task; the trace is a
+   run of the protocol, in its middle worker 0 is inside f1 while worker 1 has lost the lock, at the
+   end every function has been called exactly once *)
+Example C02_nonvacuous :
+  (exists s, run (prog_cfg ex_prog) (init (st_of [])) ex_prefix_running = Some s /\
+             w_pc (ws s 0) = PRunning 1%positive /\ w_pc (ws s 1) = PIdle /\ locks s 1%positive = LHeld 0) /\
+  (exists s, run (prog_cfg ex_prog) (init (st_of [])) ex_trace = Some s /\ forallb quiet ex_trace = true /\
+             map (execs s) [1; 2; 3]%positive = [1; 1; 1] /\
+             map (results s) [1; 2; 3]%positive = [Some ex_v1; Some ex_v2; Some ex_v3]).
+Proof. split; eexists; vm_compute; repeat split; reflexivity. Qed.
